@@ -202,7 +202,7 @@ def m_dt_cmp(I, st, fr, callee, args, dty, dest, ret_bb):
     st.events.append(('dtcmp', op, a, b))
     return {'le': a <= b, 'lt': a < b, 'ge': a >= b, 'gt': a > b, 'eq': a == b, 'ne': a != b}[op]   # signed
 def m_now(I, st, fr, callee, args, dty, dest, ret_bb):
-    t = z3.BitVec(fresh_name('now'), 64); st.events.append(('now', t)); return t
+    t = z3.Int(fresh_name('now')); st.events.append(('now', t)); return t   # instants: only ordered, never computed with => mathematical integers
 
 # ------------------------------------------------------------------ sync
 def m_arc_deref(I, st, fr, callee, args, dty, dest, ret_bb):
